@@ -94,3 +94,39 @@ def geometry_columns_rule(prog, chk):
                    detail=None if ok else "the loop consults `%s`: the masked nodes keep the constant the columns were created with instead of "
                    "their location" % show(gate[0])[:40], key="C16g|%s" % f.name)
     chk.floor("C16g", n, 1)
+
+
+def conversion_status_rule(prog, chk):
+    """C16e - a point without node is not given one.  `coordinateToIndicesInPlace` answers 0 (node found), 1 (outside) or -1 (undefined
+    coordinate, wrong dimension: the indices were not computed).  A caller that keeps the status in a variable must test it for every
+    non-zero value (`if (err)`, `err != 0`, or `err < 0` next to `err > 0`): testing `err > 0` alone lets the -1 through and converts
+    indices that were never computed (the grid origin)."""
+    n = 0
+    for f in sorted(prog.funcs, key=lambda x: (x.file, x.line)):
+        if f.body is None:
+            continue
+        for x in f.walk():
+            if x["k"] != "VarDecl" or not x.get("c") or x["c"][0] is None:
+                continue
+            c = _strip(x["c"][0])
+            if c is None or c["k"] not in ("Call", "MCall") or (c.get("callee") or "").split("::")[-1] != "coordinateToIndicesInPlace":
+                continue
+            n += 1
+            d = x["d"]
+            ops = set()
+            for y in f.walk():
+                if y["k"] == "If" and y["c"][-3] is not None:
+                    for z in walk(y["c"][-3]):
+                        if z["k"] == "BinOp" and z.get("op") in ("<", ">", "!=", "==", "<=", ">=") and _strip(z["c"][0]) is not None and \
+                                _strip(z["c"][0])["k"] == "DeclRefExpr" and _strip(z["c"][0]).get("d") == d:
+                            ops.add(z["op"])
+                    cc = _strip(y["c"][-3])
+                    if cc is not None and cc["k"] == "DeclRefExpr" and cc.get("d") == d:
+                        ops.add("!=")
+            ok = bool(ops & {"!=", "==", "<", "<="})
+            chk.analysed(f)
+            chk.ob("C16e", "%s: the failure status of the conversion to indices is not taken for a node" % f.name, f.loc(x), ok,
+                   detail=None if ok else "`%s` is only tested with %s: the status -1 (undefined coordinate, wrong dimension) passes and the indices, "
+                   "which were not computed, are converted back to coordinates" % (x["n"], ", ".join(sorted(ops)) or "nothing"),
+                   key="C16e|%s|%s" % (f.name, x["n"]))
+    chk.floor("C16e", n, 1)
